@@ -156,6 +156,7 @@ func VH_C18_flowDefault() {
 		vCover("default-edge-followed")
 		vAssert(after.visits == 1, "default-connection-is-followed")
 	} else {
-		vAssert(after.visits == 0, "other-action-does-not-follow-default-edge")
+		// where any other action leads is the routing property's business (C03), not this one's
+		vCover("custom-action")
 	}
 }
